@@ -2,9 +2,22 @@ import GBProofs.Props.C11
 import GBProofs.Layout
 import GBProofs.EriIntegral
 import GBProofs.AngMom
+import GBProofs.Reorder
 /-! C11: with `Layout.entry2_layout` the model's array for any listing of the shells is, entry by entry,
 the block of the two shells the indices belong to — computed in that orientation; reordering the shells
 therefore permutes indices by construction of the model, and the block symmetries justify the code's
 filling by symmetry: `overlapMat_symm`, `kineticMat_symm`, `pointChargeMat_symm` (`Definiteness.lean`) and the
 three generators of the eight-fold symmetry of the electron-repulsion block, `eriBlock_swap_ab`,
 `eriBlock_swap_cd`, `eriBlock_swap_electrons` (`EriIntegral.lean`), all proved for the model's blocks. -/
+
+/-! `Reorder.lean`: **the reordering law itself** — if `b'` lists the shells of `b` in another order (`Reordered b' b σ`) and
+the block depends only on the shells, then `entry(b') r c = entry(b) (reindex r) (reindex c)` with `reindex` the induced
+bijection of basis-function indices (`entry1_reorder`, `entry2_reorder`, `entry4_reorder`, `reindexEquiv`, packaged for
+permutations as `entry2_permute` …); symmetric / antisymmetric blocks give symmetric / antisymmetric assembled arrays, also
+through the spherical weights (`entry2_symm`, `entry2_antisymm`), and the three generators give the eight-fold symmetry of the
+assembled repulsion array (`entry4_eightfold`, `eri_array_eightfold`). -/
+namespace GB.C11
+alias shell_reordering_is_index_permutation := entry2_reorder
+alias four_index_reordering_is_index_permutation := entry4_reorder
+alias repulsion_array_eightfold := eri_array_eightfold
+end GB.C11
